@@ -344,6 +344,10 @@ class Range(object):
                         else:
                             # Handle "".
                             result = None
+                            if self._items or _tools.is_comma_token(next_token):
+                                raise errors.InterfaceError(
+                                    "range must have a number or ellipsis (...) before and after each comma", location
+                                )
                     else:
                         assert ellipsis_found
                         # Handle "...y".
@@ -677,7 +681,10 @@ class DecimalRange(Range):
                             # Handle "...".
                             # TODO: Handle "..." same as ""?
                             raise errors.InterfaceError("ellipsis (...) must be preceded and/or succeeded by number")
-
+                        if self._items or _tools.is_comma_token(next_token):
+                            raise errors.InterfaceError(
+                                "range must have a number or ellipsis (...) before and after each comma", location
+                            )
                     else:
                         assert ellipsis_found
                         # Handle "...y".
